@@ -464,9 +464,21 @@ def _string_alternatives(E, t, st):
 
 # ------------------------------------------------------------------ files (T-io)
 def file_method(E, r, m, args, kw, st, out, node):
+    if m != "close":
+        # close() is not a fault point: an io object is closed even when its
+        # final flush fails (T-io)
+        E.may_raise_any(st, out, node, "file." + m)
+    if m == "close":
+        st.heap["$open"] = z3.Store(E.heap(st, "$open"), r.t, z3.BoolVal(False))
+        st.written.add("$open")
+        return [(st, VNone())]
+    if "lines" not in st.ghost:
+        # no content model (typestate verification): results are opaque
+        if m in ("readline", "read", "write", "tell", "seek", "readlines", "flush"):
+            return [(st, VObj(z3.Const(fresh_name("io_" + m), PyObj)))]
+        raise OutOfSubset("file method %s" % m)
     cur = z3.Select(E.heap(st, "$cursor"), r.t)
     lines, N = st.ghost["lines"], st.ghost["N"]
-    E.may_raise_any(st, out, node, "file." + m)
     if m == "readline":
         res = []
         st1 = st.fork(); st1.assume(cur < N); st1.trace.append("%d:rl1" % node.lineno)
